@@ -236,17 +236,19 @@ def run_reply_case(case) -> dict:
     """case: ["reply", flavour, kl, domain_len, forest_len, pad_mode, sig, member(0/1)]"""
     import dpapi_ng._client as dclient
 
-    _, fl, kl, dlen, flen, pad_mode, sig, member = case
+    _, fl, kl, dlen, flen, pad_mode, sig, member = case[:8]
+    ah = case[8] if len(case) > 8 else "padded"       # how the server fills alloc_hint: padded stub, unpadded stub (Windows), 0
+    sig_srv = case[9] if len(case) > 9 else sig      # the acceptor's signature size may differ from the initiator's
     world = W.World(kl * 1000 + dlen * 10 + flen)
     record: list = []
-    cfg = {"legs": 2, "sig": sig}
+    cfg = {"legs": 2, "sig": sig, "sig_srv": sig_srv}
     rk = _small_dh_rootkey(kl)
     sid = "S-1-5-21-1-2-3-1105"
     from ref import dtyp
 
     sd = dtyp.target_sd(sid)
     dc = refdc.RefDC(world, [rk], host=DC, caller_sids={sid} if member else set(), acceptor_factory=drive.stub_acceptor_factory(cfg),
-                     domain="d" * dlen, forest="f" * flen, rpc_knobs={"pad_mode": pad_mode})
+                     domain="d" * dlen, forest="f" * flen, rpc_knobs={"pad_mode": pad_mode, "alloc_hint": ah})
     with world.installed(ctx_factory=drive.stub_ctx_factory(cfg, record)):
         if fl == "sync":
             out = drive.classify(lambda: dclient._sync_get_key(DC, sd, rk.root_key_id, -1, -1, -1))
@@ -254,6 +256,8 @@ def run_reply_case(case) -> dict:
             out = drive.classify(lambda: drive.run_async(world, lambda: dclient._async_get_key(DC, sd, rk.root_key_id, -1, -1, -1), random.Random(kl)))
     pads = {k: v for k, v in world.stats.items() if k.startswith("reply_pad_")}
     probes = dict(pads)
+    probes["alloc_hint_" + ah] = 1
+    probes["sig_sizes_" + ("differ" if sig_srv != sig else "equal")] = 1
     res = {"digest": world.digest() + out.brief(), "key": common.key_hash(case), "fired": {"reply_pad_policy_" + pad_mode.split(":")[0]: 1}, "probes": probes,
            "vtime_ns": world.stats.get("vtime_ns", 0), "viol": None}
 
@@ -349,7 +353,7 @@ class C13(common.Check):
                   "DC": "model (RefDC)", "transport": "simulated"}
     assumptions = ["the quantifier is a parameter grid; what the simulation contributes is the second party (independent receiver, recording context)",
                    "alloc_hint is recorded, not judged"]
-    required_fired = tuple(f"reply_pad_{k}" for k in range(16)) + ("hs_1_auth_1", "hs_0_auth_1", "hs_0_auth_0", "seq_connections", "concurrent_replies")
+    required_fired = tuple(f"reply_pad_{k}" for k in range(16)) + ("hs_1_auth_1", "hs_0_auth_1", "hs_0_auth_0", "seq_connections", "concurrent_replies", "alloc_hint_unpadded", "alloc_hint_zero", "sig_sizes_differ")
 
     def exhaustive(self, tier):
         return True
@@ -385,6 +389,9 @@ class C13(common.Check):
                             for member in (0, 1):
                                 sig = (16, 28, 60, 76)[(kl + dlen + flen) % 4]
                                 out.append(["reply", fl, kl, dlen, flen, pad_mode, sig, member])
+                                if pad_mode in ("min16", "min4") and flen < 2:
+                                    out.append(["reply", fl, kl, dlen, flen, pad_mode, sig, member, ("unpadded", "zero")[member], sig])
+                                    out.append(["reply", fl, kl, dlen, flen, pad_mode, sig, member, "padded", (76, 60, 28, 16)[(kl + dlen) % 4]])
         return out
 
     def run_case(self, case):
@@ -413,7 +420,9 @@ class C13(common.Check):
             if len(case[2]) > 2:
                 yield ["seq", case[1], case[2][:2], case[3], case[4]]
         else:
-            _, fl, kl, dlen, flen, pad_mode, sig, member = case
+            _, fl, kl, dlen, flen, pad_mode, sig, member = case[:8]
+            if len(case) > 8:
+                return
             if fl == "async":
                 yield ["reply", "sync", kl, dlen, flen, pad_mode, sig, member]
             if dlen:
@@ -428,7 +437,7 @@ class C13(common.Check):
             return dict(zip(("kind", "flavour", "sig_sizes_of_consecutive_connections", "stub_len", "vt_variant"), case))
         if case[0] == "reply2":
             return dict(zip(("kind", "seed", "dh_key_length_a", "dh_key_length_b", "pad_mode"), case))
-        return dict(zip(("kind", "flavour", "dh_key_length", "domain_len", "forest_len", "pad_mode", "sig_size", "member"), case))
+        return dict(zip(("kind", "flavour", "dh_key_length", "domain_len", "forest_len", "pad_mode", "sig_size", "member", "alloc_hint_policy", "server_sig_size"), case))
 
 
 CHECK = C13()
